@@ -17,7 +17,10 @@ oracle     : 5-point central differences of `forward` with power-of-two steps
              each way of setting, a sibling object used in between; forward judged on ALL
              ordered pairs of points lying on both sides of every seam of forward), input
              class X (exponents around every branch threshold x points with extreme
-             logarithms) and input class L (large arrays with ties) - oracle only
+             logarithms), input class L (large arrays with ties) and input class F (the far ends
+             of the domain: internal arguments and parameters from 1e-300 to 1e300 around every
+             overflow / underflow threshold, wherever the exact forward value and the exact
+             derivative are normal numbers; forward finite there, jacobian finite) - oracle only
 """
 import math
 import os
@@ -301,6 +304,14 @@ def eval_elements(ctx, tag, name, opts, eff, rep0, t, recs, idxs, shape, put, pa
     note = " [the content of x was modified by the calls]" if changed else ""
     for p, r in enumerate(sel):
         idx = [int(i) for i in np.unravel_index(p, shape)] if shape else []
+        if not math.isfinite(last["fwd"][p]):
+            # an interior point inside C01's conditioning region: the exact value is a normal number
+            return fail("forward-not-finite",
+                        {"method": "forward", "index": idx, "x_at_index": r["x"], "output": last["fwd"][p],
+                         "output_all": last["fwd"]},
+                        f"forward(x){idx} = {last['fwd'][p]!r} at the interior point x{idx} = {r['x']!r} (jacobian "
+                        f"there: {r['j']!r}): forward has no derivative there; x = {_tolist(X)} passed as "
+                        f"{desc}{note}")
         for label, J in checks:
             j = J[p]
             ext = {"method": "jacobian", "index": idx, "x_at_index": r["x"], "output": j,
@@ -1045,6 +1056,491 @@ def large_array_checks(ctx):
     ctx.notes["large_array_elements"] = nchk
 
 
+# ----------------------------------------------------------------------------
+# input class F (oracle only): the FAR ENDS of the domain
+#
+# The other classes draw their points where C01's round trip is well conditioned (|ln(x + nu)| <= 11.5,
+# a + b*x/xmax <= 40, |x - nu|*scale <= 1e6 ...).  C02's quantifier is wider: ALL interior points of the
+# domain at which the stencil fits.  F walks the internal argument of every class (x for Identity, the
+# distance to either end for Logit, x + nu for the logarithm / power / reciprocal family, |nu + scale*x| for
+# Yeo-Johnson, a + b*x/xmax for LogSinh, (x - nu)*scale for Sinh, lam*x/xmax and x/xmax for Manly, the row
+# sum and the entries for Softmax) along a ladder of magnitudes from 1e-300 to 1e300 whose rungs sit on both
+# sides of every threshold of binary64 / binary32 arithmetic at which an intermediate result of SOME way of
+# writing the formula overflows, underflows or is absorbed (exp: 88.7, 709.8, -745.1; exp(2w): 354.9;
+# sinh / cosh: 710.5; squares: 1.3e154, 1e-154; cubes: 1e102; 1 + w == w: 2^53), with the parameters and
+# constants at the far ends of their legal ranges as well (xmax from its lower bound to 1e250, scale from
+# its lower bound to 1e100, nu up to 1e100, every bound of loga / logb / logdelta / lam, a tiny mininu, a
+# logarithm base next to 1 and a huge one).  A point is judged where the EXACT forward value and the EXACT
+# derivative are normal binary64 numbers (|ln| <= 690, computed in the log domain from the definitions, not
+# from the library): there the property's clauses read
+#   * forward(x) is a finite number (a function that has a derivative at x has a value at x), at x and at the
+#     four stencil points;
+#   * jacobian(x) is finite and > 0;
+#   * jacobian(x) = 5-point central difference of forward within 1e-4 (+ the stencil's own rounding bound;
+#     skipped where that bound exceeds 2e-5 |j|, as everywhere in this check);
+#   * forward non-decreasing within rounding over ALL ordered pairs of the points;
+#   * equality only within rounding: for neighbouring points x1 < x2 on one side of the centre of symmetry /
+#     branch switch (where the derivative is monotone, so that forward grows by at least
+#     min(j1, j2) (x2 - x1) between them), forward(x2) > forward(x1) whenever half of that growth exceeds
+#     four times the rounding bound of the two values.
+
+LNREP = 690.0          # e^690 = 4.7e299: |ln v| <= LNREP  =>  v is a normal binary64 number
+FAR_MAGS = [1e-300, 1e-250, 1e-200, 9e-155, 2e-154, 1e-120, 1e-100, 1e-60, 1e-30, 1e-20, 1e-16, 1e-12, 1e-9,
+            1e-6, 1e-3, 0.1, 1.0, 10.0, 20.0, 40.0, 88.0, 90.0, 200.0, 354.0, 356.0, 500.0, 700.0, 708.0, 709.5,
+            710.2, 711.0, 744.0, 746.0, 800.0, 1e3, 2e3, 1e4, 1e5, 1e6, 1e7, 1e9, 1e12, 2.0 ** 53, 1e17, 1e20,
+            1e30, 1e50, 9e101, 2e102, 1e120, 1e150, 1.3e154, 1.4e154, 1e200, 1e250, 1e300]
+
+
+def far_region(name, opts, eff, x):
+    """x is an interior point of the domain at which the exact value of forward and the exact derivative are
+    normal binary64 numbers - judged in the log domain from the definition of the transform"""
+    try:
+        if not (math.isfinite(x) and abs(x) <= 1e300):
+            return False
+        e = tc.eps()
+        ok = lambda v: abs(v) <= LNREP                                  # noqa: E731
+        if name == "Identity":
+            return True
+        if name == "Logit":
+            lo, d = eff["lower"], math.exp(eff["logdelta"])
+            return x - lo > 2 * e and (lo + d) - x > 2 * e and abs(lo) <= 1e6 * d
+        if name in ("Log", "BoxCox2", "BoxCox1lam", "BoxCox1nu", "BoxCox2sym"):
+            o = tc.full_opts(name, opts)
+            nu, lam = eff["nu"], eff.get("lam", 0.0)
+            z = (abs(x) if name == "BoxCox2sym" else x) + nu
+            if not (z > o.get("mininu", 0.0) and z > 0):
+                return False
+            lz = math.log(z)
+            if name == "Log":
+                bf = 1.0 if o["base"] is None else math.log(o["base"])
+                return bf > 0 and ok(lz) and ok(-lz - math.log(bf)) and ok(math.log(abs(lz) + 1) - math.log(bf))
+            if name == "BoxCox2sym" and not (x != 0 and nu > 0 and ok(math.log(nu)) and ok(lam * math.log(nu))):
+                return False
+            if abs(lam) <= e:
+                return ok(lz)
+            return ok(lz) and ok(max(lam * lz, 0.0) - math.log(abs(lam))) and ok((lam - 1) * lz)
+        if name == "YeoJohnson":
+            nu, sc, lam = eff["nu"], eff["scale"], eff["lam"]
+            w = nu + x * sc
+            if 0 < w < e or not math.isfinite(w):
+                return False
+            ex_ = lam if w >= e else 2 - lam
+            lz = math.log1p(abs(w))
+            lnf = max(ex_ * lz, 0.0) - (math.log(abs(ex_)) if abs(ex_) > 1e-8 else 0.0)
+            # (ex_ - 1) * lz on its own too: the unchanged library forms (1 + |w|)**(ex_ - 1) before multiplying by
+            # scale, which underflows to 0.0 for scale ~ 1e100 where the exact product is a normal number -
+            # observed, reported in notes/C02.md, not asserted here
+            return ok(lz) and ok(lnf) and ok((ex_ - 1) * lz + math.log(sc)) and ok((ex_ - 1) * lz)
+        if name == "LogSinh":
+            a, b, xmax = math.exp(eff["loga"]), math.exp(eff["logb"]), eff["xmax"]
+            xn = x / xmax
+            w = a + b * xn
+            if not (xn > -a / b + 2 * e and w > 0 and w / b <= 1e299):
+                return False
+            lncoth = -math.log(math.tanh(w)) if w < 20 else 0.0
+            return ok(lncoth - math.log(xmax)) and ok(math.log(w) - math.log(b))
+        if name == "Reciprocal":
+            z = eff["nu"] + x
+            return z > 0 and ok(2 * math.log(z))
+        if name == "Sinh":
+            nu, sc = eff["nu"], eff["scale"]
+            u = (x - nu) * sc
+            # |u| <= 1e150: beyond 1.34e154 the unchanged library's jacobian scale/sqrt(1 + u*u) is 0.0 (u*u
+            # overflows) although the exact derivative scale/|u| is a normal number - observed, reported in
+            # notes/C02.md, not asserted here
+            if not (math.isfinite(u) and abs(u) <= 1e150):
+                return False
+            return ok(math.log(sc) - (math.log(abs(u)) if abs(u) > 1e8 else 0.5 * math.log1p(u * u)))
+        if name == "Manly":
+            lam, xmax = eff["lam"], eff["xmax"]
+            u = x / xmax
+            if not (math.isfinite(u) and abs(u) <= 1e300):
+                return False
+            if abs(lam) <= e:
+                return ok(math.log(xmax))
+            return ok(max(lam * u, 0.0) - math.log(abs(lam))) and ok(lam * u - math.log(xmax))
+    except (ValueError, OverflowError, ZeroDivisionError):
+        return False
+    raise KeyError(name)
+
+
+def far_scale(name, opts, eff, x):
+    """local_scale, except in the far field of LogSinh where forward is linear up to O(exp(-2w)): the step may
+    grow with w (a step of 1/256 in w is lost in the rounding of forward beyond w ~ 1e6)"""
+    try:
+        L = local_scale(name, opts, eff, x)
+        if name == "LogSinh":
+            a, b = math.exp(eff["loga"]), math.exp(eff["logb"])
+            w = a + b * (x / eff["xmax"])
+            if w >= 40:
+                L = max(L, 0.5 * w * eff["xmax"] / b)
+        return L
+    except (ValueError, OverflowError, ZeroDivisionError):
+        return 0.0
+
+
+def far_amp(name, opts, eff, x, f):
+    """a priori bound of |computed forward - exact forward| / 2^-53, valid in the far field (tc.amp, except for
+    Sinh whose bound there is the absolute error of u = (x - nu)*scale, not propagated through arcsinh)"""
+    if name == "Sinh":
+        try:
+            u = (x - eff["nu"]) * eff["scale"]
+            cu = max(abs(x), abs(eff["nu"])) * eff["scale"] * 2
+            return cu / math.hypot(1.0, u) + abs(f) + 1.0
+        except (ValueError, OverflowError, ZeroDivisionError):
+            return math.inf
+    return tc.amp(name, "fwd", opts, eff, x, f)
+
+
+def far_side(name, eff, x):
+    """label of the stretch of the domain on which the derivative of forward is monotone"""
+    if name == "Logit":
+        return x - eff["lower"] >= 0.5 * math.exp(eff["logdelta"])
+    if name == "BoxCox2sym":
+        return x >= 0
+    if name == "YeoJohnson":
+        return eff["nu"] + x * eff["scale"] >= tc.eps()
+    if name == "Sinh":
+        return x >= eff["nu"]
+    return True
+
+
+def far_settings(name, rng, thorough):
+    """[(constructor options, values)]: the corners of the legal ranges and extreme magnitudes of the unbounded
+    values; quick: a rotating subset that always contains the first (default-like) settings"""
+    e = tc.eps()
+    out = []
+    if name == "Identity":
+        return [({}, {})]
+    if name == "Logit":
+        b = tc.bounds(name, {})
+        lo, hi = b["logdelta"][2], b["logdelta"][3]
+        for ld in (0.0, lo, hi, -3.0, 5.0):
+            for lower in (0.0, -1.0, 1e3, -1e5, 1e100):
+                out.append(({}, {"lower": lower, "logdelta": ld}))
+    elif name in ("Log", "Reciprocal"):
+        optl = [{}, {"mininu": 1e-305}, {"mininu": 1.0}, {"mininu": tc.TINY_MININU}]
+        if name == "Log":
+            optl = [{}, {"base": 10.0}, {"mininu": 1e-305}, {"mininu": 1e-305, "base": 2.0}, {"mininu": 1.0},
+                    {"base": 1.0000001}, {"base": 1e300}, {"mininu": tc.TINY_MININU, "base": 3.0}]
+        for o in optl:
+            lo = tc.full_opts(name, o)["mininu"]
+            for nu in (lo, lo + 1.0, 1e100, lo + 1e-3):
+                out.append((dict(o), {"nu": nu}))
+    elif name in ("BoxCox2", "BoxCox1lam", "BoxCox1nu", "BoxCox2sym"):
+        for o in ({}, {"minilam": -3.0}, {"mininu": 1e-305, "minilam": -1.0}, {"mininu": 1.0, "minilam": -1.0}):
+            b = tc.bounds(name, o)
+            lo, llo, lhi = b["nu"][2], b["lam"][2], b["lam"][3]
+            for k, lam in enumerate([1.0, 0.0, llo, lhi, 0.2, -1.0, e, 2.0, -0.5, 1e-3, 0.5, 1.5, -2.0, -e, 1e-5]):
+                if not llo <= lam <= lhi:
+                    continue
+                for nu in ((lo, 1e100), (lo + 1.0, lo + 1e-3))[k % 2]:
+                    out.append((dict(o), {"nu": nu, "lam": lam}))
+    elif name == "YeoJohnson":
+        b = tc.bounds(name, {})
+        slo = b["scale"][2]
+        combos = [(0.0, 1.0), (0.5, slo), (-3.0, 1e3), (0.0, 1e100), (1e50, slo), (0.0, slo), (-1e5, 1.0)]
+        for k, lam in enumerate([1.0, 0.0, 2.0, b["lam"][2], b["lam"][3], 0.5, 1.5, 2.5, -0.5, 1e-6, 2.0 - 1e-3,
+                                 2.0 + 1e-3, 1e-9]):
+            for j in range(3):
+                nu, sc = combos[(k + 2 * j) % len(combos)]
+                out.append(({}, {"nu": nu, "scale": sc, "lam": lam}))
+    elif name == "LogSinh":
+        b = tc.bounds(name, {})
+        las = [-1.0, b["loga"][2], b["loga"][3], -5.0]
+        lbs = [0.0, b["logb"][3], b["logb"][2], 1.0]
+        xms = [1.0, 37.0, b["xmax"][2], 1e-5, 1e5, 1e100, 1e250, 0.5]
+        k = 0
+        for lb in lbs:
+            for la in las:
+                for xm in xms:
+                    out.append(({}, {"loga": la, "logb": lb, "xmax": xm}))
+                    k += 1
+    elif name == "Sinh":
+        b = tc.bounds(name, {})
+        for sc in (1.0, b["scale"][2], 1e-3, 1e3, 1e100):
+            for nu in (0.0, 1.0, -1e5, 1e100):
+                out.append(({}, {"nu": nu, "scale": sc}))
+    elif name == "Manly":
+        b = tc.bounds(name, {})
+        for lam in (0.1, 0.0, b["lam"][2], b["lam"][3], 1.0, -1.0, 1e-3, -1e-3, e, 1e-5, -1e-5):
+            for xm in (1.0, b["xmax"][2], 1e-3, 1e4, 1e100):
+                out.append(({}, {"lam": lam, "xmax": xm}))
+    else:
+        raise KeyError(name)
+    if thorough:
+        # + parameter vectors of C01's generator (branch values, one ulp either side, log-uniform magnitudes)
+        for o in tc.ctor_variants(name, rng, c02=True):
+            for v in tc.param_vectors(name, o, rng, 12):
+                out.append((dict(o), v))
+        return out
+    keep = {"Logit": 9, "Log": 14, "Reciprocal": 8, "LogSinh": 40, "YeoJohnson": 16, "Sinh": 10, "Manly": 20}.get(name, 22)
+    if len(out) <= keep:
+        return out
+    head = out[:keep // 2]
+    rest = out[keep // 2:]
+    rng.shuffle(rest)
+    return head + rest[:keep - len(head)]
+
+
+def far_points(name, opts, eff, rng, nextra):
+    """points whose internal argument runs over FAR_MAGS (+ `nextra` log-uniform magnitudes), both signs /
+    both ends where the domain has them; not yet filtered by far_region"""
+    mags = list(FAR_MAGS) + [10 ** rng.uniform(-300, 300) for _ in range(nextra)] + \
+        [10 ** rng.uniform(1, 4) for _ in range(nextra)]
+    xs = []
+    try:
+        if name == "Identity":
+            xs = [s * m for m in mags for s in (1, -1)] + [0.0]
+        elif name == "Logit":
+            lo, d = eff["lower"], math.exp(eff["logdelta"])
+            for m in mags:
+                if m <= 0.5:
+                    xs += [lo + m * d, (lo + d) - m * d]
+            xs += [lo + d * 2.0 ** -k for k in (1, 2, 30, 40, 45, 50)] + [(lo + d) - d * 2.0 ** -k for k in (2, 30, 40, 45, 50)]
+        elif name in ("Log", "BoxCox2", "BoxCox1lam", "BoxCox1nu", "Reciprocal"):
+            nu = eff["nu"]
+            lo = tc.full_opts(name, opts).get("mininu", 0.0)
+            xs = [m - nu for m in mags] + [m for m in mags] + [lo * (1 + 2.0 ** -k) - nu for k in (0, 10, 30)]
+        elif name == "BoxCox2sym":
+            nu = eff["nu"]
+            xs = [s * m for m in mags for s in (1, -1)] + [s * (m - nu) for m in mags for s in (1, -1) if m > nu]
+        elif name == "YeoJohnson":
+            nu, sc = eff["nu"], eff["scale"]
+            xs = [(s * m - nu) / sc for m in mags for s in (1, -1)] + [(0.0 - nu) / sc, (tc.eps() - nu) / sc]
+        elif name == "LogSinh":
+            a, b, xmax = math.exp(eff["loga"]), math.exp(eff["logb"]), eff["xmax"]
+            xs = [((m - a) / b) * xmax for m in mags] + [m * xmax for m in mags] + \
+                 [(-a / b + tc.eps() * (1 + k)) * xmax for k in (1.0, 3.0, 1e3, 1e6)]
+        elif name == "Sinh":
+            nu, sc = eff["nu"], eff["scale"]
+            xs = [s * m / sc + nu for m in mags for s in (1, -1)] + [nu]
+        elif name == "Manly":
+            lam, xmax = eff["lam"], eff["xmax"]
+            xs = [s * m * xmax for m in mags for s in (1, -1)] + [0.0]
+            if lam != 0:
+                xs += [(s * m / lam) * xmax for m in mags for s in (1, -1)]
+    except (ValueError, OverflowError, ZeroDivisionError):
+        pass
+    return [float(x) for x in xs if isinstance(x, float) and math.isfinite(x)]
+
+
+def far_judge(ctx, name, opts, eff, t, xs, rep0):
+    """the clauses of the property (header of class F) for the values `t` holds, on the points of xs inside
+    far_region.  Returns the number of points judged."""
+    xs = sorted({x for x in xs if far_region(name, opts, eff, x) and far_scale(name, opts, eff, x) > 0})
+    if len(xs) < 1:
+        return 0
+    who = f"{name}{opts} {eff}"
+    n = len(xs)
+    X = np.array(xs, dtype=np.float64)
+    rep0 = dict(rep0, x=xs)
+    region = ("an interior point of the domain where the exact forward value and the exact derivative are normal "
+              "binary64 numbers")
+
+    def fail(mode, extra, text):
+        ctx.failure(f"C02/{name}/far-{mode}", dict(rep0, **extra), f"{who}: {text}")
+
+    J, jshape, jerr = call_on(t, "jac", X.copy())
+    F, fshape, ferr = call_on(t, "fwd", X.copy())
+    for meth, out, oshape, err in (("jacobian", J, jshape, jerr), ("forward", F, fshape, ferr)):
+        if out is None:
+            fail(f"{meth}-raises", {"method": meth, "exception": err},
+                 f"{meth}(x) raised {err} for x = {xs}, all interior points of the domain")
+            return 0
+        if oshape != (n,):
+            fail(f"{meth}-shape", {"method": meth, "output_shape": list(oshape)},
+                 f"{meth}(x) has shape {oshape} for x of shape ({n},)")
+            return 0
+    good = []
+    for i, x in enumerate(xs):
+        j, f = J[i], F[i]
+        ctx.count((name, "far", "point", far_side(name, eff, x), math.floor(math.log10(abs(x))) // 25 if x else 0))
+        okp = True
+        if not j > 0:
+            okp = False
+            fail("jacobian-not-positive", {"method": "jacobian", "x_at_index": x, "index": i, "output": j},
+                 f"jacobian({x!r}) = {j!r} is not positive at {region}")
+        elif not math.isfinite(j):
+            okp = False
+            fail("jacobian-not-finite", {"method": "jacobian", "x_at_index": x, "index": i, "output": j},
+                 f"jacobian({x!r}) = {j!r} at {region}: it is not the derivative of forward")
+        if not math.isfinite(f):
+            okp = False
+            fail("forward-not-finite", {"method": "forward", "x_at_index": x, "index": i, "output": f,
+                                        "jacobian": j},
+                 f"forward({x!r}) = {f!r} at {region} (jacobian there: {j!r}): forward has no derivative at x, "
+                 "and takes this value at every such point - not increasing")
+        if okp:
+            good.append(i)
+    # ---- the stencil (vectorised over the points at which it fits)
+    if not noisy_params(name, eff):
+        S, H = [], []
+        for i in good:
+            x = xs[i]
+            L = far_scale(name, opts, eff, x)
+            if not (math.isfinite(L) and L > 0):
+                continue
+            h = 2.0 ** math.floor(math.log2(L / 256))
+            pts = [x - 2 * h, x - h, x + h, x + 2 * h]
+            if not ((pts[2] - x) == h and (x - pts[1]) == h and (pts[3] - x) == 2 * h and (x - pts[0]) == 2 * h):
+                continue
+            if not all(far_region(name, opts, eff, p) and far_scale(name, opts, eff, p) > 0 for p in pts):
+                continue
+            S.append(i)
+            H.append(h)
+        if S:
+            Xs, Hs = X[S], np.array(H)
+            Fd = {}
+            for d in (-2, -1, 1, 2):
+                out, _, err = call_on(t, "fwd", Xs + d * Hs)
+                if out is None or len(out) != len(S):
+                    fail("forward-raises", {"method": "forward", "exception": err, "x": (Xs + d * Hs).tolist()},
+                         f"forward(x) raised {err} (or lost elements) for x = {(Xs + d * Hs).tolist()}, all "
+                         "interior points of the domain")
+                    Fd = None
+                    break
+                Fd[d] = out
+            for q, i in enumerate(S if Fd else []):
+                x, h, j = xs[i], H[q], J[i]
+                fv = [Fd[d][q] for d in (-2, -1, 1, 2)]
+                pts = [x - 2 * h, x - h, x + h, x + 2 * h]
+                bad = [(p, v) for p, v in zip(pts, fv) if not math.isfinite(v)]
+                if bad:
+                    fail("forward-not-finite", {"method": "forward", "x_at_index": bad[0][0], "output": bad[0][1],
+                                                "stencil_centre": x, "h": h, "jacobian": j},
+                         f"forward({bad[0][0]!r}) = {bad[0][1]!r} at {region} (stencil point of x = {x!r}, "
+                         f"h = {h!r}; jacobian(x) = {j!r}): the derivative of forward does not exist there")
+                    continue
+                af = max(far_amp(name, opts, eff, p, v) for p, v in zip(pts, fv))
+                noise = 32 * tc.U * af / h if math.isfinite(af) else math.inf
+                if not noise <= 2e-5 * abs(j):
+                    continue
+                fd = (fv[0] - 8 * fv[1] + 8 * fv[2] - fv[3]) / (12 * h)
+                ctx.count((name, "far", "stencil", far_side(name, eff, x)))
+                if not abs(fd - j) <= REL * abs(j) + noise:
+                    fail("jacobian-differs-from-finite-difference",
+                         {"method": "jacobian", "x_at_index": x, "index": i, "output": j, "h": h,
+                          "finite_difference": fd, "forward_at_stencil": fv},
+                         f"jacobian({x!r}) = {j!r}, 5-point central difference of forward (h={h!r}) = {fd!r}")
+    # ---- forward over all ordered pairs (running maximum) and equality only within rounding (neighbours)
+    A = [far_amp(name, opts, eff, x, f) if math.isfinite(f) else math.inf for x, f in zip(xs, F)]
+    best = None
+    prev = None
+    for i, x in enumerate(xs):
+        f, a = F[i], A[i]
+        if not (math.isfinite(f) and math.isfinite(a)):
+            continue
+        ctx.count((name, "far", "monotone"))
+        if best is not None and not best[0] <= f + 16 * tc.U * (best[2] + a):
+            fail("forward-not-increasing", {"method": "forward", "x1": best[1], "x2": x, "f1": best[0], "f2": f},
+                 f"forward({best[1]!r}) = {best[0]!r} > forward({x!r}) = {f!r} (both in one call)")
+            break
+        if best is None or f > best[0]:
+            best = (f, x, a)
+        if prev is not None and i in good and prev in good and far_side(name, eff, xs[prev]) == far_side(name, eff, x):
+            x1, f1, a1 = xs[prev], F[prev], A[prev]
+            with np.errstate(all="ignore"):
+                growth = float(np.float64(0.5) * min(J[prev], J[i]) * (np.float64(x) - np.float64(x1)))
+            if growth > 4 * 16 * tc.U * (a1 + a) and not f > f1:
+                fail("forward-not-strictly-increasing",
+                     {"method": "forward", "x1": x1, "x2": x, "f1": f1, "f2": f, "j1": J[prev], "j2": J[i]},
+                     f"forward({x1!r}) = {f1!r} and forward({x!r}) = {f!r} although the derivative is at least "
+                     f"{min(J[prev], J[i])!r} between them (jacobian at the two points, monotone in between): "
+                     "equality beyond rounding")
+                break
+        prev = i
+    return n
+
+
+def far_softmax(ctx):
+    """class F for Softmax: rows whose entries are all tiny (product down to 1e-300) and rows whose sum comes
+    within 2e-10 .. 1e-2 of 1 (entries of comparable size, so that one stencil step fits every column)"""
+    from hydrodiy.stat import transform as T
+    rng = ctx.rng
+    njudged = 0
+    for k in range(ctx.scale(24, 120)):
+        nc = [1, 2, 3, 5, 4][k % 5]
+        g = [rng.uniform(0.5, 1.5) for _ in range(nc)]
+        tot = sum(g)
+        tiny = [1e-280, 1e-200, 1e-100, 1e-55, 1e-30, 1e-12, 1e-5]
+        near = [1e-2, 1e-4, 1e-6, 1e-8, 2e-9, 3e-10]
+        if k % 2 == 0:
+            s = tiny[(k // 2) % len(tiny)]
+        else:
+            s = 1.0 - near[(k // 2) % len(near)]
+        row = [v / tot * s for v in g]
+        ssum = float(np.sum(np.array(row)))
+        lnprod = sum(math.log(v) for v in row)
+        if not (1 - ssum > 2 * tc.eps() and abs(lnprod) <= LNREP and abs(lnprod + math.log(1 - ssum)) <= LNREP):
+            continue
+        sm = T.Softmax() if k % 3 else T.get_transform("Softmax")
+        R = np.array([row], dtype=np.float64)
+        rep0 = {"class": "Softmax", "rows": R.tolist(), "input_class": "far ends of the domain (F)"}
+        cm.mark({"call": "Softmax (far)", "rows": R.tolist()})
+
+        def fail(mode, extra, text, rep0=rep0):
+            ctx.failure(f"C02/Softmax/far-{mode}", dict(rep0, **extra), f"Softmax: {text}")
+
+        J, _, jerr = call_on(sm, "jac", R.copy())
+        Fw, _, ferr = call_on(sm, "fwd", R.copy())
+        njudged += 1
+        ctx.count(("Softmax", "far", nc, k % 2, (k // 2) % 7))
+        if J is None or Fw is None:
+            meth, err = ("jacobian", jerr) if J is None else ("forward", ferr)
+            fail(f"{meth}-raises", {"method": meth, "exception": err},
+                 f"{meth}(x) raised {err} for the row x = {row} (entries > 0, 1 - sum = {1 - ssum!r} > 2 EPS): "
+                 "inside the domain")
+            continue
+        j = J[0]
+        if not (j > 0 and math.isfinite(j)):
+            fail("jacobian-not-positive", {"method": "jacobian", "output": j},
+                 f"jacobian(x) = {j!r} for the row x = {row}, where the exact determinant exp({-lnprod!r}) / "
+                 f"{1 - ssum!r} is a normal binary64 number")
+            continue
+        if not all(math.isfinite(v) for v in Fw):
+            fail("forward-not-finite", {"method": "forward", "output": Fw},
+                 f"forward(x) = {Fw} for the row x = {row} inside the domain")
+            continue
+        # determinant of the partial derivatives where the stencil is accurate (no cancellation in 1 - sum
+        # beyond 1e-4 of it; the step fits every column because the entries are of one size)
+        if 1 - ssum >= 1e-4:
+            dets = softmax_fd_dets(lambda M: call_on(sm, "fwd", M)[0], R)
+            if dets is None or not math.isfinite(dets[0]):
+                fail("forward-not-finite", {"method": "forward", "determinant": None if dets is None else dets[0]},
+                     f"forward raised or is not finite at a stencil point of the row x = {row} inside the domain")
+            elif not abs(dets[0] - j) <= REL * abs(j):
+                fail("jacobian-differs-from-determinant", {"method": "jacobian", "output": j, "determinant": dets[0]},
+                     f"jacobian(x) = {j!r} but the determinant of the 5-point partial derivatives of forward at "
+                     f"the row x = {row} is {dets[0]!r}")
+    ctx.notes["classF_softmax_rows"] = njudged
+
+
+def far_checks(ctx):
+    """input class F"""
+    rng = ctx.rng
+    npts = nset = 0
+    for name in tc.CLASSES:
+        if name == "Softmax":
+            continue
+        for k, (opts, vals) in enumerate(far_settings(name, rng, ctx.thorough)):
+            cm.mark({"call": "transform (far ends)", "class": name, "opts": opts, "vals": vals})
+            try:
+                t, eff = tc.make(name, opts, vals, k % 2 == 1)
+            except Exception:           # noqa: BLE001 - a setting the constructor refuses is not a point of F
+                continue
+            if any(not math.isfinite(v) for v in eff.values()):
+                continue
+            rep0 = {"class": name, "opts": opts, "values": eff, "via_get_transform": k % 2 == 1,
+                    "input_class": "far ends of the domain (F)"}
+            m = far_judge(ctx, name, opts, eff, t, far_points(name, opts, eff, rng, ctx.scale(2, 12)), rep0)
+            npts += m
+            nset += 1 if m else 0
+    far_softmax(ctx)
+    ctx.notes["classF_settings"] = nset
+    ctx.notes["classF_points"] = npts
+
+
 def run(ctx):
     ctx.rule = ("12 scalar classes x constructor-option variants (log base > 1) x parameter vectors as in "
                 "C01 x interior domain points; jacobian through the public API; Softmax: 2-D rows; "
@@ -1061,7 +1557,14 @@ def run(ctx):
                 "scale: forward over all ordered pairs, jacobian clauses at the interior points; "
                 "X = exponents at / around EPS and the isclose windows at 0 and 2 x |ln(x + nu)|, |ln(1 + |w|)| up "
                 "to 230 inside |lam * ln| <= 13.8; L = one call on 50021 (thorough: 200003) elements with ties, "
-                "contiguous and strided")
+                "contiguous and strided; F = the far ends of the domain: the internal argument of every class (x, the "
+                "distance to either end of Logit, x + nu, |nu + scale*x|, a + b*x/xmax, (x - nu)*scale, lam*x/xmax, "
+                "Softmax entries and 1 - sum) from 1e-300 to 1e300 on both sides of every overflow / underflow / "
+                "absorption threshold of binary64 and binary32 arithmetic (88.7, 354.9, 709.8, 710.5, 745.1, 2^53, "
+                "1e102, 1.3e154), parameters and constants at the far ends of their ranges (xmax 1e-10 .. 1e250, scale "
+                "to 1e100, nu to 1e100, tiny mininu, base next to 1 and 1e300), wherever the exact forward value and "
+                "the exact derivative are normal binary64 numbers: forward finite, jacobian finite and > 0, stencil, "
+                "forward over all pairs, equality of forward only within rounding")
     ctx.trusted = cm.STD_TRUST + [
         "engine E3: the real-number model evaluated by `interval` inside Coq at the implementation's "
         "inputs, compared with the implementation's jacobian under an a priori forward-error bound",
@@ -1078,6 +1581,10 @@ def run(ctx):
         "independence from the history of parameter changes, from other objects of the class and from the size "
         "of the array (input classes W, L), agreement of the formula selection of jacobian and forward around "
         "the branch thresholds far from the origin (input class X): tested",
+        "far ends of the domain (input class F): tested at ~18000 (thorough: ~155000) points; left out, because "
+        "the unchanged library does not hold there: Sinh beyond |(x - nu)*scale| = 1e150 (jacobian is 0.0 from "
+        "1.34e154 on: u*u overflows) and Yeo-Johnson where (1 + |w|)**(exponent - 1) alone underflows although its "
+        "product with scale is a normal number (scale ~ 1e100)",
         "R leaves out float32/integer inputs (the 1e-4 clause is stated for binary64 points), 0-d arrays, and "
         "0-d inputs of YeoJohnson (TypeError in dutils.cast under this numpy on the unchanged tree)",
     ]
@@ -1139,6 +1646,14 @@ def run(ctx):
                     ctx.count((name, "jac", sig))
                 if not interior:
                     continue
+                # oracle 0: forward has a value where it is said to have a derivative
+                if fs is None or not math.isfinite(fs[i]):
+                    ctx.failure(f"C02/{name}/forward-not-finite",
+                                dict(base, method="forward", x=x, output=None if fs is None else fs[i],
+                                     exception=ferr, jacobian=j),
+                                f"{name}{opts} {eff}: forward({x!r}) "
+                                f"{'raised ' + str(ferr) if fs is None else '= ' + repr(fs[i])} at an interior point "
+                                f"(jacobian there: {j!r})")
                 # oracle 1: strictly positive
                 if not j > 0:
                     if gi is not None:
@@ -1260,13 +1775,14 @@ def run(ctx):
     walk_checks(ctx)
     extreme_checks(ctx)
     large_array_checks(ctx)
+    far_checks(ctx)
     t_wxl = time.time() - t_wxl
 
     t1 = time.time()
     bad, nok, nshards, failed = tc.run_e3(PID, goals, shard=ctx.scale(40, 60))
     ctx.notes["timing_s"] = {"prove": round(t_prove, 1),
                              "generate+oracle": round(t1 - t0 - t_prove - t_rs - t_wxl, 1),
-                             "classes R+S": round(t_rs, 1), "classes W+X+L": round(t_wxl, 1),
+                             "classes R+S": round(t_rs, 1), "classes W+X+L+F": round(t_wxl, 1),
                              "e3": round(time.time() - t1, 1)}
     ctx.notes["correspondence_goals"] = len(goals)
     ctx.notes["correspondence_mismatches"] = len(bad)
